@@ -46,6 +46,7 @@ fn main() {
   let mut repl = false;
   let mut final_gc = false;
   let mut leak_check = false;
+  let mut size_check = false;
   let mut alloc_mode = halloc::MODE_PLAIN;
   let mut i = 0;
   while i < args.len() {
@@ -119,6 +120,7 @@ fn main() {
       "--sched-trace" => vv::SCHED_TRACE.store(true, Relaxed),
       "--final-gc" => final_gc = true,
       "--leak-check" => leak_check = true,
+      "--size-check" => size_check = true,
       "--dump" => {
         let path = next();
         let f = File::create(&path).expect("cannot create dump file");
@@ -186,6 +188,50 @@ fn main() {
     }
   }
 
+  let mut size_violations: Vec<String> = vec![];
+  let mut sizes_checked = 0u64;
+  if size_check && alloc_mode != halloc::MODE_PLAIN {
+    let (objects, others) = vm.verif_objects();
+    for (address, size, kind) in objects {
+      sizes_checked += 1;
+      match halloc::lookup(address) {
+        Some((real, _)) if real == size => (),
+        Some((real, _)) => {
+          if size_violations.len() < 8 {
+            size_violations.push(format!(
+              "size: object of kind {} reports {} bytes, its block has {}",
+              kind, size, real
+            ))
+          }
+        },
+        None => {
+          if size_violations.len() < 8 {
+            size_violations.push(format!("size: object of kind {} is not a live block", kind))
+          }
+        },
+      }
+    }
+    for (address, size) in others {
+      sizes_checked += 1;
+      match halloc::lookup(address) {
+        Some((real, _)) if real == size => (),
+        Some((real, _)) => {
+          if size_violations.len() < 8 {
+            size_violations.push(format!(
+              "size: managed allocation reports {} bytes, its block has {}",
+              size, real
+            ))
+          }
+        },
+        None => {
+          if size_violations.len() < 8 {
+            size_violations.push("size: managed allocation is not a live block".to_string())
+          }
+        },
+      }
+    }
+  }
+
   let heap_bytes = vm.verif_allocated();
   let temp_roots = vm.verif_temp_roots();
   let live_before_drop = (halloc::LIVE_BLOCKS.load(Relaxed), halloc::LIVE_BYTES.load(Relaxed));
@@ -207,6 +253,7 @@ fn main() {
 
   let mut violations = cv::take_violations();
   violations.extend(vv::take_violations());
+  violations.extend(size_violations);
 
   let snapshots = cv::take_snapshots();
   let snap_json: Vec<String> = snapshots
@@ -270,12 +317,13 @@ fn main() {
     vv::INVOKE_CLEARS.load(Relaxed),
   ));
   out.push_str(&format!(
-    "\"switches\":{},\"queued\":{},\"deadlocks\":{},\"heap_bytes\":{},\"temp_roots\":{},",
+    "\"switches\":{},\"queued\":{},\"deadlocks\":{},\"heap_bytes\":{},\"temp_roots\":{},\"sizes_checked\":{},",
     vv::CONTEXT_SWITCHES.load(Relaxed),
     vv::FIBERS_QUEUED.load(Relaxed),
     vv::DEADLOCKS.load(Relaxed),
     heap_bytes,
     temp_roots,
+    sizes_checked,
   ));
   out.push_str(&format!(
     "\"h_live_blocks\":{},\"h_live_bytes\":{},\"h_peak_bytes\":{},\"h_total_allocs\":{},\"h_layout_mismatches\":{},\"h_poison_damage\":{},\"h_reused\":{},\"h_table_full\":{},\"leak_blocks\":{},\"leak_bytes\":{},",
